@@ -252,6 +252,26 @@ ADDED = {
     "C20": " Also the environment's own path over the episode-scheduled directories past the end of the schedule against an independent reading of the files; probes with "
            "several routes to one destination.",
 }
+# third round (DESIGN.md 11.6, third table)
+ADDED3 = {
+    "C01": " A fourth tour facet: a remote terminal session across every power transition of its host (SSH connections of a node that goes down are gone).",
+    "C02": " Variants with the reward-sharing order reversed in the file (dependency order of agents) are stepped as well.",
+    "C03": " Amplifier with two equal-cost routes (tie broken by a process-dependent identifier would show in the state digest); profiles after a full data-manipulation / UC7 run (thorough).",
+    "C04": " Constant scenarios: a dirty run with an unseeded reset in the middle, compared from the LAST reset with a fresh instance reset with the same seed (seed 0 included).",
+    "C05": " Scenario with odd component names; requests to components that were removed during the history.",
+    "C06": " The scan with nmap's own payload on the ports the router treats specially (ARP's 219 over UDP) is part of the stimulus.",
+    "C07": " Rules also enter through the scenario file (the environment door), with the default rules at positions 22 / 23, over several episodes.",
+    "C08": " An eighth topology: one switch carrying two subnets of one router; switches are judged on their own port counters (learn before forward).",
+    "C09": " Per-host overrides of requires_scan (true and false, under either global value) are part of the corpus.",
+    "C10": " Variants all-sticky + mixed answers and none-sticky + boundary weights (0, negative, > 1).",
+    "C11": " Near-miss spellings of action names are probed at __call__ as well as in the mask.",
+    "C15": " The request door's create with a random force flag over files deleted earlier.",
+    "C18": " The load of a link that went down is judged in the tick after (PreTick from Network.pre_timestep).",
+    "C19": " Probabilistic agents: action maps written in the order of the probability table, the executed action compared with the action DECLARED under the chosen key.",
+    "C20": " Probes with dns_server declared at node level and as the dns-client service's own option.",
+}
+for _k, _v in ADDED3.items():
+    ADDED[_k] = ADDED.get(_k, "") + _v
 for _k, _v in ADDED.items():
     if _k in CHECKS:
         CHECKS[_k]["text"] = CHECKS[_k]["text"] + _v
